@@ -123,6 +123,9 @@ def deliver_signal(p, sig):
             vt.intr = True
 
 
+_IMMORTAL = []
+
+
 def run_pending_signals(vt):
     w = vos.world()
     p = w.procs.get(vt.pid)
@@ -132,7 +135,17 @@ def run_pending_signals(vt):
         sig = p.pending.pop(0)
         h = p.handlers.get(sig, _signal.SIG_DFL)
         if callable(h):
-            h(sig, None)
+            try:
+                h(sig, None)
+            except BaseException as exc:
+                # The traceback of an exception raised by a signal handler
+                # inside Connection.send holds a frame with a BytesIO whose
+                # buffer is still exported; *collecting* that cycle crashes
+                # CPython 3.12.1 ("deallocated BytesIO object has exported
+                # buffers").  Keeping the exception alive keeps the cycle
+                # from ever becoming garbage.
+                _IMMORTAL.append(exc)
+                raise
 
 
 # --------------------------------------------------------- per-process sys
